@@ -1252,6 +1252,26 @@ def drawn_waveforms(repo: Repo, rep, P: str):
             if isinstance(v, ast.IfExp):
                 cases.append((v.body, known | guards.facts(v.test, True)))
                 cases.append((v.orelse, known | guards.facts(v.test, False)))
+            elif isinstance(v, ast.Name):
+                # a local that is set on the way here (`samples = []; if default is not None: samples = default[:]`): per path, its last
+                # definition together with the tests taken on that path
+                paths_ = gi.paths(gi.entry, [n.id], max_visits=1, limit=500, labels_excluded={"exc", "reraise", "nomatch"}) or []
+                got = False
+                for p_ in paths_:
+                    if not gi.feasible(p_):
+                        continue
+                    last, facts_ = None, set()
+                    for nid, lab in p_:
+                        nn = gi.nodes[nid]
+                        if nn.kind == "test" and lab in ("true", "false"):
+                            facts_ |= guards.facts(nn.ast, lab == "true")
+                        if nn.kind == "stmt" and isinstance(nn.ast, ast.Assign) and any(isinstance(t, ast.Name) and t.id == v.id for t in nn.ast.targets):
+                            last = nn.ast.value
+                    if last is not None:
+                        cases.append((last, facts_))
+                        got = True
+                if not got:
+                    cases.append((v, known))
             else:
                 cases.append((v, known))
 
